@@ -369,6 +369,9 @@ func (d *Decoder) DecodeFloat32() (float32, error) {
 	if d.offset >= len(d.p) {
 		return 0, io.ErrUnexpectedEOF
 	}
+	if len(d.p)-d.offset < 4 {
+		return 0, io.ErrUnexpectedEOF
+	}
 	v := binary.LittleEndian.Uint32(d.p[d.offset:])
 	fv := math.Float32frombits(v)
 	d.offset += 4
@@ -380,6 +383,9 @@ func (d *Decoder) DecodeFloat32() (float32, error) {
 // io.ErrUnexpectedEOF is returned if the operation would read past the end of the data.
 func (d *Decoder) DecodeFloat64() (float64, error) {
 	if d.offset >= len(d.p) {
+		return 0, io.ErrUnexpectedEOF
+	}
+	if len(d.p)-d.offset < 8 {
 		return 0, io.ErrUnexpectedEOF
 	}
 	v := binary.LittleEndian.Uint64(d.p[d.offset:])
